@@ -112,7 +112,7 @@ _HDR = {}
 def _headers(src):
     """line numbers that belong to a def/class header (signature, decorators, default arguments) or a docstring"""
     import ast
-    key = id(src)
+    key = hash("\n".join(src))
     if key in _HDR:
         return _HDR[key]
     out = set()
